@@ -9,6 +9,24 @@ PROPS = {
         native="c03",
         level="proof",
         trusted=["A-py-1", "A-solver", "A-pyvc"],
+        level_text="Every clause of the property (rejection exact; result non-empty, within [0,size), ascending, disjoint, "
+                   "non-adjacent; union == denotation of the specs, for an arbitrary byte position) is a postcondition / "
+                   "exceptional postcondition of the real parse_range; the VCs are generated from its AST on every run and "
+                   "discharged by z3/cvc5 for all sizes, all spec lists of any length and every loop iteration (merge-loop "
+                   "invariant). A bounded symbolic refuter and an exhaustive small-domain run of the real function through "
+                   "the regex front end stand beside the proof (labelled bounded).",
+        level_note="Trusted: re.findall returns pairs of (possibly empty) decimal numerals (A-re-1); int() on such a numeral of "
+                   "<= 4300 digits is its value (A-int-1); sorted() is an ordered permutation (A-sorted); str.split at the first "
+                   "'=' (A-split); the VC generator itself (A-pyvc; guarded by canaries, the refuter and mutation runs); solver "
+                   "answers (A-solver). The regex front end is covered by the bounded stand-in only. Unicode digits accepted by "
+                   "\\d are outside the model.",
+        technique="deductive verification: contracts on the real function, VCs from the AST, SMT (z3/cvc5); loop invariant for the merge loop",
         explanation="",
     ),
+}
+
+NOT_APPLICABLE = {
+    "C06": "quantifies over schedules/interleavings (relay thread vs consumer vs closer, asyncio tasks vs ping timer) and is a "
+           "bounded-liveness claim; contracts over a sequential, await-erased semantics cannot express an interleaving and "
+           "partial-correctness obligations say nothing about termination (DESIGN.md section 7)",
 }
